@@ -346,6 +346,10 @@ def parse_model(toks):
         t.expect('NV')
         v = t.int()
         c.verts = [t.q3() for _ in range(v)]
+        c.m2 = None
+        if t.peek() == 'M2':
+            t.next()
+            c.m2 = [t.q() for _ in range(6)]
         cells.append(c)
     t.expect('T')
     boxvol = t.q()
